@@ -7,10 +7,9 @@
  "annotate": ["alg/crc32c_sse42.c"],
  "defines": ["VERIF_HALLOC", "CPUSUPPORT_X86_SSE42=1"],
  "matrix": {"SSE42_64": [0, 1]},
- "models": ["models/x86_crc32.c"],
  "cflags": ["-msse4.2"],
  "timeout": 400,
- "assumptions": ["CRC32 instruction modelled from the SDM (models/x86_crc32.c; builtin = SDM text proved in C03/crc_insn_leaf)",
+ "assumptions": ["CRC32 instruction modelled from the SDM (models/x86_crc32.c, included by the harness; builtin = SDM text proved in C03/crc_insn_leaf)",
                  "one instance with and one without CPUSUPPORT_X86_SSE42_64 (8-byte / 2x4-byte body loop)",
                  "all 8 alignments: the buffer starts at an arbitrary offset 0..7 of an 8-aligned object (CBMC: (uintptr_t)p mod 8 = offset mod 8)",
                  "buffer object <= CRC_MAXLEN + 7 bytes; the three loops are closed by loop contracts",
@@ -28,6 +27,7 @@ uint32_t g_crc;
 size_t g_crc_n;
 uint32_t g_crc0;
 #include "alg/crc32c_sse42.c"
+#include "x86_crc32.c"	/* instruction model; included (not linked) because it shares the static spec function */
 
 void
 h_crc(void)
